@@ -39,6 +39,7 @@ type arRef struct {
 	Name  string `json:"name"`  // as written after $
 	Terms []int  `json:"terms"` // terminals (compiled numbering) whose tokens make up the referenced element
 	Val   string `json:"val"`   // term nonterm mixed none: what $x evaluates to, if emitted
+	Star  bool  `json:"star"` // a nullable list: present (and empty) when it has no tokens - any position is accepted then
 	HTerms []int `json:"hterms"` // those of Terms that belong to helper nonterminals (their value is 1000 + offset)
 }
 
@@ -138,7 +139,7 @@ func (g *arGen) elem(d int) *arElem {
 		e := &arElem{K: "alt"}
 		for i := 0; i < 2+r.Intn(2); i++ {
 			s := g.elem(d - 1)
-			if s.K == "alt" || s.K == "opt" {
+			if s.K == "alt" || s.K == "opt" || s.K == "list" && !s.Plus {
 				s = g.single()
 			}
 			e.Sub = append(e.Sub, s)
@@ -151,8 +152,9 @@ func (g *arGen) elem(d int) *arElem {
 		}
 		return e
 	default:
-		// only non-nullable lists: a star list is a nullable nonterminal that is present (and empty) rather than absent
-		e := &arElem{K: "list", Plus: true, Sub: []*arElem{{K: "sym", T: g.term()}}}
+		// a star list is a nullable nonterminal that is present (and empty) rather than absent: its references are
+		// checked only when it has elements
+		e := &arElem{K: "list", Plus: r.Intn(2) == 0, Sub: []*arElem{{K: "sym", T: g.term()}}}
 		if r.Intn(2) == 0 {
 			e.Sep = g.term() + 1
 		}
@@ -227,6 +229,19 @@ func (e *arElem) terms(helpers map[int]int, out *[]int) {
 	}
 }
 
+// hasStar reports whether the element contains a nullable list: such an element can be present without any token
+func (e *arElem) hasStar() bool {
+	if e.K == "list" && !e.Plus {
+		return true
+	}
+	for _, s := range e.Sub {
+		if s.hasStar() {
+			return true
+		}
+	}
+	return false
+}
+
 // referencable items of an element: aliases (with the set of terminals they cover) and the bare names of unaliased symbols
 func (e *arElem) collect(helpers map[int]int, byName map[string]*arRef, order *[]string) {
 	add := func(name string, val string, el *arElem) {
@@ -239,7 +254,7 @@ func (e *arElem) collect(helpers map[int]int, byName map[string]*arRef, order *[
 			}
 			return
 		}
-		byName[name] = &arRef{Form: "name", Name: name, Terms: ts, Val: val}
+		byName[name] = &arRef{Form: "name", Name: name, Terms: ts, Val: val, Star: el.hasStar()}
 		*order = append(*order, name)
 	}
 	switch e.K {
@@ -258,6 +273,9 @@ func (e *arElem) collect(helpers map[int]int, byName map[string]*arRef, order *[
 	case "list":
 		if e.Name != "" {
 			add(e.Name, "none", e)
+			if !e.Plus {
+				byName[e.Name].Star = true
+			}
 		}
 	case "seq":
 		if e.Name != "" {
@@ -311,7 +329,7 @@ func (e *arElem) positions(helpers map[int]int, pos *int, out *[]arRef) {
 		var ts []int
 		e.terms(helpers, &ts)
 		val := map[string]string{"sym": "term", "nt": "nonterm", "list": "none"}[e.K]
-		*out = append(*out, arRef{Form: "pos", Name: strconv.Itoa(*pos), Terms: ts, Val: val})
+		*out = append(*out, arRef{Form: "pos", Name: strconv.Itoa(*pos), Terms: ts, Val: val, Star: e.K == "list" && !e.Plus})
 		*pos++
 	default:
 		for _, s := range e.Sub {
